@@ -9,6 +9,38 @@ NUM = "util/num.py"
 DM = "core/dimer.py"
 
 
+def branch_free(chk, ev, q, v, w, names, det):
+    """R = v . diag(1, ..., 1, sgn) . w written without a branch: the sign vector d (ones, last entry sign(det v det w)) scales the COLUMNS of v
+    (v * d, v * d[None, :]) or the ROWS of w (d[:, None] * w).  Returns False when the function is not of that form."""
+    ret = ev.returns[-1] if ev.returns else None
+    ra = ret.value.as_atom() if ret is not None and ret.value is not None else None
+    if not (ra and ra[0] == "matmul" and len(ra[1]) == 2):
+        return False
+    X, Y = ra[1]
+    dobjs = [P.atom(a) for a in find_atoms(ret.value, lambda t: t[0] == "obj")]
+    if len({d.key() for d in dobjs}) != 1:
+        return False
+    d = dobjs[0]
+    ia = obj_init(d).as_atom()
+    ones = bool(ia and call_name(ia) in ("numpy.ones_like", "numpy.ones"))
+    stores = [e for e in ev.events if e.kind in ("store", "aug") and e.target.as_atom() and e.target.as_atom()[1].key() == d.key()]
+    sgn = P.atom(("call", P.name("numpy.sign"), (det(v) * det(w),)))
+    oks = len(stores) == 1 and stores[0].kind == "store" and not stores[0].guards and stores[0].target.as_atom()[2] == (P.const(-1),) \
+        and stores[0].value in (sgn, P.atom(("call", P.name("numpy.sign"), (det(matmul(v, w)),))))
+    chk.ob("R18.1", "util/num.py", q, "branch-free correction: the sign vector is all ones except its last entry, sign(det(v)*det(w))", ones and oks,
+           fingerprint="condition", found=f"{obj_init(d)}; {[str(e.target) + ' = ' + str(e.value)[:80] for e in stores]}")
+    full = P.atom(("slice", P.atom(("const", None)), P.atom(("const", None)), P.atom(("const", None))))
+    col = [d] + [P.atom(("sub", d, (nx, full))) for nx in (P.name("numpy.newaxis"), P.atom(("const", None)))]
+    row = [P.atom(("sub", d, (full, nx))) for nx in (P.name("numpy.newaxis"), P.atom(("const", None)))]
+    okf = (Y == w and any(X == c * v for c in col)) or (X == v and any(Y == r * w for r in row))
+    chk.ob("R18.1", "util/num.py", q, "the sign multiplies the last COLUMN of v (v * d) or the last ROW of w (d[:, None] * w): R = v . diag(d) . w",
+           okf, fingerprint="flip", expected="numpy.dot(v * d, w)", found=str(ret.value)[:200])
+    other = [e for e in ev.events if e.kind in ("store", "aug") and e.target.as_atom() and e.target.as_atom()[1].key() in (v.key(), w.key())]
+    chk.ob("R18.1", "util/num.py", q, "v and w are not modified outside that branch", not other, found=[str(e.target) for e in other])
+    chk.ob("R18.1", "util/num.py", q, "R = v . w is formed after the correction, on every path", len(ev.returns) == 1 and not ret.guards, found=str(ret.value)[:120])
+    return True
+
+
 def run(chk):
     repo = chk.repo
     num = repo.module(NUM)
@@ -36,6 +68,9 @@ def run(chk):
         v, w = names["v"], names["w"]
         det = lambda x: P.atom(("call", P.name("numpy.linalg.det"), (x,)))
         tests = [e for e in ev.events if e.kind == "test"]
+        if not tests and branch_free(chk, ev, q, v, w, names, det):
+            tests = None
+    if chk.want("R18.1") and tests is not None:
         chk.need(len(tests) == 1, f"{q}: expected one determinant test")
         c = tests[0].value.as_atom()
         okc = bool(c and c[0] == "lt" and c[2] == P.const(0) and (c[1] == det(v) * det(w) or c[1].key() == det(matmul(v, w)).key()))
